@@ -70,6 +70,18 @@ pub struct Spec {
     /// one op list per task (C15: one task; C16 concurrent variant: 2-3 tasks without transactions)
     pub tasks: Vec<Vec<MOp>>,
     pub c16: bool,
+    /// C15 only: a second task writes through the same manager while the first one runs transactions to commit
+    #[serde(default)]
+    pub conc_commit: Option<ConcCommit>,
+}
+
+/// Transactions of one task (value-state keys, each written once, epoch record, commit) next to plain writes of a
+/// second task (node keys, each written once, after seeded virtual delays). No rollback and no fault: every write that
+/// was acknowledged must reach the database, whether it joined the open transaction or went straight through.
+#[derive(Clone, Debug, Serialize, Deserialize)]
+pub struct ConcCommit {
+    pub rounds: Vec<(Vec<Rec>, Rec)>,
+    pub other: Vec<(u64, Rec)>,
 }
 
 fn version_of(user: usize, epoch: u64) -> u64 {
@@ -188,7 +200,101 @@ fn gen_read(rng: &mut Rng) -> MOp {
     }
 }
 
+fn gen_conc_commit(rng: &mut Rng) -> Spec {
+    let mut serial = 0u64;
+    let mut vkeys: Vec<(usize, u64)> = (0..3).flat_map(|u| (1..=MAX_EPOCH).map(move |e| (u, e))).collect();
+    rng.shuffle(&mut vkeys);
+    let mut rounds = vec![];
+    for r in 0..rng.range(1, 3) {
+        let mut sets = vec![];
+        for _ in 0..rng.range(1, 3) {
+            if let Some((user, epoch)) = vkeys.pop() {
+                serial += 1;
+                sets.push(Rec::Value { user, epoch, serial });
+            }
+        }
+        serial += 1;
+        rounds.push((sets, Rec::Azks { epoch: r + 1, serial }));
+    }
+    let mut nodes: Vec<usize> = (0..N_NODES).collect();
+    rng.shuffle(&mut nodes);
+    let mut other = vec![];
+    for idx in nodes.into_iter().take(rng.range(2, N_NODES as u64) as usize) {
+        serial += 1;
+        other.push((rng.below(12), Rec::Node { idx, serial }));
+    }
+    Spec {
+        cache: if rng.chance(1, 2) { CacheSpec::None } else { CacheSpec::Default },
+        policy: crate::histarm::gen_policy(rng),
+        h2_mask: (rng.next_u64() & 0x7ff) as u16,
+        tasks: vec![vec![]],
+        c16: false,
+        conc_commit: Some(ConcCommit { rounds, other }),
+    }
+}
+
+async fn run_conc_commit(cc: ConcCommit, mgr: StorageManager<SimDb>, store: SimStore) -> Shared {
+    let mut sh = Shared::default();
+    let acked: Arc<Mutex<Vec<(Vec<u8>, u64, String)>>> = Arc::new(Mutex::new(vec![]));
+    let (m2, a2, other) = (mgr.clone(), acked.clone(), cc.other.clone());
+    let second = tokio::spawn(async move {
+        for (d, r) in other {
+            if d > 0 {
+                tokio::time::sleep(std::time::Duration::from_millis(d)).await;
+            }
+            let rec = build(&r);
+            let (bin, ser) = (rec.get_full_binary_id(), serial_of(&rec));
+            if m2.set(rec).await.is_ok() {
+                a2.lock().unwrap().push((bin, ser, format!("{r:?} by the second task")));
+            }
+        }
+    });
+    for (sets, azks) in &cc.rounds {
+        if !mgr.begin_transaction() {
+            sh.herr = Some("begin_transaction refused although this task has none open".into());
+            return sh;
+        }
+        for r in sets {
+            let rec = build(r);
+            let (bin, ser) = (rec.get_full_binary_id(), serial_of(&rec));
+            if mgr.set(rec).await.is_ok() {
+                acked.lock().unwrap().push((bin, ser, format!("{r:?} inside the transaction")));
+            }
+        }
+        let _ = mgr.set(build(azks)).await;
+        match mgr.commit_transaction().await {
+            Ok(_) => sh.p("commit"),
+            Err(e) => {
+                sh.v("c15_commit_failed_without_fault", format!("commit_transaction failed although no fault was injected: {e}"));
+                return sh;
+            }
+        }
+    }
+    let _ = second.await;
+    for _ in 0..2000 {
+        if sched::pending_count() == 0 {
+            break;
+        }
+        tokio::time::sleep(std::time::Duration::from_millis(2)).await;
+    }
+    sh.p("concurrent_commit_case");
+    if mgr.is_transaction_active() {
+        sh.v("c15_transaction_left_open", "after the last commit returned".into());
+    }
+    for (bin, ser, what) in acked.lock().unwrap().iter() {
+        sh.checks += 1;
+        let applied: Vec<u64> = store.applied_for_key(bin).iter().map(serial_of).collect();
+        if !applied.contains(ser) {
+            sh.v("c15_acknowledged_write_never_reached_the_database", format!("{what} was answered Ok but the database was never given it (writes the database saw for that key: {applied:?}); commit hands the database exactly the pending records"));
+        }
+    }
+    sh
+}
+
 fn gen_c15(rng: &mut Rng, tier: Tier) -> Spec {
+    if rng.chance(1, 10) {
+        return gen_conc_commit(rng);
+    }
     let n = rng.range(20, if tier == Tier::Thorough { 140 } else { 70 });
     let mut ops = vec![];
     let mut serial = 0u64;
@@ -241,6 +347,7 @@ fn gen_c15(rng: &mut Rng, tier: Tier) -> Spec {
         h2_mask: 0,
         tasks: vec![ops],
         c16: false,
+        conc_commit: None,
     }
 }
 
@@ -336,6 +443,7 @@ fn gen_c16(rng: &mut Rng, tier: Tier) -> Spec {
         h2_mask: if concurrent { (rng.next_u64() & 0x7ff) as u16 | 0x0f } else { 0 },
         tasks,
         c16: true,
+        conc_commit: None,
     }
 }
 
@@ -833,6 +941,9 @@ async fn run_spec(spec: Spec) -> Shared {
             _ => 30_000,
         };
     }
+    if let Some(cc) = spec.conc_commit.clone() {
+        return run_conc_commit(cc, mgr, store).await;
+    }
     let concurrent = spec.tasks.len() > 1;
     let mut hs = vec![];
     for (ti, ops) in spec.tasks.iter().enumerate() {
@@ -892,13 +1003,14 @@ impl Arm for MgrArm {
             rep.checks = o.checks;
             let in_tx_reads = o.probes.get("read_inside_transaction").copied().unwrap_or(0);
             let had_commit = o.probes.contains_key("commit");
+            let conc_case = o.probes.contains_key("concurrent_commit_case");
             let had_evict = o.probes.contains_key("clock_advanced");
             for (k, c) in o.probes {
                 rep.probe_n(&k, c);
             }
             rep.states = o.states;
             rep.harness_error = rep.harness_error.take().or(o.herr);
-            let nontrivial = if id == "C15" { in_tx_reads >= 3 && had_commit } else { n_ops >= 10 && had_evict };
+            let nontrivial = if id == "C15" { (in_tx_reads >= 3 && had_commit) || conc_case } else { n_ops >= 10 && had_evict };
             if nontrivial {
                 rep.nontrivial.push(fp(&spec_v.to_string()));
             }
@@ -942,7 +1054,7 @@ impl Arm for MgrArm {
     }
     fn rule(&self) -> String {
         if self.id == "C15" {
-            "one case = one seeded sequence of 20..140 storage-manager operations over a small universe (3 users incl. the empty label x epochs 1..4 with version = 2*epoch+user+1, 6 tree-node keys, the epoch record): set, batch_set, single and batched gets, get_user_state with every flag, get_user_data, get_user_state_versions, begin, commit (epoch record added first, as publish does), rollback, begin-while-open; cached and uncached managers. Oracle (the statement verbatim, differential): at every read the storage is snapshotted, the pending records are applied to the snapshot and the SAME read is issued through a fresh cache-less manager on it — answers must be equal (absent user = empty answer); rollback discards pending writes; commit hands the database exactly one batch equal to the pending record set with the epoch record last; begin while open is refused; memory.rs answers are cross-checked against the documented meaning of each retrieval flag. non-trivial = >= 3 reads inside a transaction and >= 1 commit; distinct = distinct op sequences".into()
+            "one case = one seeded sequence of 20..140 storage-manager operations over a small universe (3 users incl. the empty label x epochs 1..4 with version = 2*epoch+user+1, 6 tree-node keys, the epoch record): set, batch_set, single and batched gets, get_user_state with every flag, get_user_data, get_user_state_versions, begin, commit (epoch record added first, as publish does), rollback, begin-while-open; cached and uncached managers. Oracle (the statement verbatim, differential): at every read the storage is snapshotted, the pending records are applied to the snapshot and the SAME read is issued through a fresh cache-less manager on it — answers must be equal (absent user = empty answer); rollback discards pending writes; commit hands the database exactly one batch equal to the pending record set with the epoch record last; begin while open is refused; memory.rs answers are cross-checked against the documented meaning of each retrieval flag. One case in ten is concurrent instead: one task runs 1..3 transactions (value-state keys written once each, epoch record, commit) while a second task writes node keys (once each, after seeded delays of 0..11 virtual ms) through the same manager, interleaved at database operations and manager entry points; no rollback, no fault; every acknowledged write must have been handed to the database by the end, whether it joined the open transaction or went straight through. non-trivial = >= 3 reads inside a transaction and >= 1 commit, or a concurrent case; distinct = distinct op sequences".into()
         } else {
             "one case = one seeded run over one cached StorageManager (lifetime 2 ms..30 s, memory limit 300 B..none, clean cadence 2 ms..15 s): either a single task mixing writes, writes the database rejects, transactions (incl. rejected commits), reads, flushes and clock advances around the lifetime (differential oracle: every get/batch_get equals the same read on storage + pending through a fresh cache-less manager; after flush the next epoch-record read reflects storage), or 2-3 tasks on clones interleaved at StorageManager entry points and database operations (oracle: every written record carries a unique serial; a read that starts after a write of that key has returned must not return an older record, and never the value of a rejected write). non-trivial = >= 10 operations with at least one clock advance; distinct = distinct op sequences".into()
         }
